@@ -32,13 +32,14 @@ def build_and_run(d: Path, case, numrec, out_name):
     nsteps, period, layout, pvar, reverse = (case["nsteps"], case["period"], case["layout"],
                                               case["pvar"], case["reverse"])
     Gd = grid()
+    off = int(case.get("stop_off", 0))  # seconds by which the stop time lies beyond the last whole step
     if reverse:
         start = scen.T0 + scen.S(40 * DT)
-        stop = start - scen.S(nsteps * DT)
+        stop = start - scen.S(nsteps * DT + off)
         frames = [stop - scen.S(2 * DT), start + scen.S(2 * DT)]
     else:
         start = scen.T0
-        stop = start + scen.S(nsteps * DT)
+        stop = start + scen.S(nsteps * DT + off)
         frames = [start - scen.S(2 * DT), stop + scen.S(2 * DT)]
     U, V = scen.vel_arrays(Gd, 2, {"kind": "const", "u": 0.05, "v": -0.02})
     fname, _ = scen.write_forcing(d, Gd, frames, U, V)
@@ -81,7 +82,7 @@ _unsplit_cache: dict = {}
 
 
 def unsplit_records(case):
-    key = (case["nsteps"], case["period"], case["layout"], case["pvar"], case["reverse"])
+    key = (case["nsteps"], case["period"], case["layout"], case["pvar"], case["reverse"], case.get("stop_off", 0))
     if key not in _unsplit_cache:
         with e2e.workdir() as d:
             r, _ = build_and_run(d, case, 0, "out.nc")
@@ -173,6 +174,8 @@ def all_cases(quick):
             ns, ps, nr, ("sparse", "dense"), (False, True), (False, True), ("out.nc", "out_07.nc", "out_0000.nc", "out_2000_00.nc")):
         cases.append(dict(nsteps=nsteps, period=period, numrec=numrec, layout=layout,
                           pvar=pvar, reverse=reverse, fname=fname))
+        if fname == "out.nc":  # a duration that is not a whole number of time steps: floor(duration / dt) steps
+            cases.append(dict(cases[-1], stop_off=25))
     return cases
 
 
